@@ -72,18 +72,20 @@
      What lookups return on a given content is C01/C05 (Lawful.get_lawful etc.).
 
    PARTLY / NOT COVERED BY A THEOREM (left to the correspondence check)
-   * The six iterator kinds and Set::iter are ONE cursor in the model; that
-     keys/values/values_mut/iter_mut/Set::iter project slot i as the crate
-     does is checked by the harness (Exec.iter_session kinds 0-4), not proved.
-   * count(): not a separate model function; it is cursor_len of the current
-     cursor (same number as len()); its value at every step is now
-     C09_iter_count_remaining.  That the crate's count() consumes the iterator
-     and returns that number is left to the harness.
-   * "a cloned iterator continues identically": NOW a theorem,
-     C09_iter_clone_continues_seq.  What remains an assumption of the model:
-     Clone for Iter/Keys/Values/SetIter copies the cursor (lo,hi) and nothing else (the
-     harness compares Exec.rest_slots of the clone).  IterMut / ValuesMut are
-     not Clone in the crate.
+   * (Corrected after the audit.)  C09_iter_exact_len and C09_iter_count_remaining
+     are arithmetic identities on cursor_len, and C09_iter_clone_continues_seq is
+     determinism of the model; the clauses about len()/size_hint()/count(), the
+     six kinds and their projections, writes seen by later lookups, and Clone
+     are stated about model functions in the AUDIT CLOSURE section at the end of
+     this file (C09_iter_len_after, C09_iter_count_after, C09_iter_steps_obs,
+     C09_set_iter_steps_obs, C09_iter_mut_write_then_get,
+     C09_iter_clone_continues, C09_rest_slots_is_clone_run, C09_iter_session_obs).
+   * What remains an assumption of the model, checked by the harness only: that
+     Clone for Iter/Keys/Values/SetIter copies the cursor (lo,hi) and nothing else
+     (iter_clone c = ret c), and that the crate's len()/size_hint()/count() are
+     the functions iter_len / iter_size_hint / iter_count of Proofs/MoreIter.v
+     (the interpreter emits nn (cursor_len c) for all three hints and consumes a
+     clone through Exec.rest_slots).  IterMut / ValuesMut are not Clone.
    * "every reachable container state" enters as the hypothesis WF (self w)
      (reachable states are WF: ExecSafe.step_safe, C02/C04).
    ======================================================================== *)
@@ -258,3 +260,388 @@ Example C09_example_rest :
   range_list m3 (1, 3) = [(k_ 3 6, v_ 4 8); (k_ 5 7, v_ 6 9)] /\
   skipn 1 (Spec.elems m3) = [(k_ 3 6, v_ 4 8); (k_ 5 7, v_ 6 9)].
 Proof. split; vm_compute; reflexivity. Qed.
+
+(* ======================================================================== *)
+(* AUDIT CLOSURE for C09 (Proofs/MoreIter.v)
+
+   The audit found: (5) len()/size_hint()/count() appeared only as arithmetic
+   on cursor_len; (6) the six kinds were not distinguished; (7) no theorem
+   composed a write through iter_mut with a later lookup; (8) the clone theorem
+   was a determinism tautology.  This section states those clauses about model
+   functions.
+
+   MODEL FUNCTIONS FOR THE OBSERVERS (defined in Proofs/MoreIter.v next to the
+   runner iter_run; Model/Exec.v computes the same numbers inline, see below):
+     iter_len c        = ret (cursor_len c)                ExactSizeIterator::len
+     iter_size_hint c  = ret (cursor_len c, Some (cursor_len c))       size_hint
+     iter_count c      = call next() until None (cursor_len c + 1 calls are
+                         enough), return (number of items seen, final cursor)
+     iter_clone c      = ret c    Clone for Iter/Keys/Values/SetIter copies the
+                         slice iterator, i.e. the cursor (IterMut/ValuesMut are
+                         not Clone)
+     write_val i f     = the in-place modification of the VALUE of slot i through
+                         the &mut V that iter_mut/values_mut/get_mut handed out
+                         (p_replace i (fun p => (fst p, f (snd p)))); the
+                         interpreter's Exec.set_dat i d is
+                         write_val i (fun v => {| vid := vid v; vdat := d |})
+                         (C09_set_dat_is_write_val)
+   IN THE INTERPRETER (Model/Exec.v): iter_steps kind wd n j c acc emits, before
+   every step, l l l with l = nn (cursor_len c) for len(), size_hint().0,
+   size_hint().1; then 1, the slot and r_item kind p, or 0.  rest_slots n lo is
+   the consumption of a CLONE of the iterator (harness: `let mut c = it.clone();
+   drop(it)`, then count / collect on c); iter_session appends nn (length rest),
+   the clone's items and the original's len() afterwards.
+
+   READING GUIDE (clause -> theorem)
+   * "before every step len() and size_hint report exactly the number of items
+     still to come":
+       C09_iter_len_after      after j steps of the actual session iter ;; next^j,
+                               iter_len = len - min j len and iter_size_hint =
+                               (that, Some that); world unchanged
+       C09_iter_steps_obs      the interpreter's session, every kind: the hint
+                               triple before each step is nn (hi - lo) of the
+                               cursor at that step (steps_obs), exactly the
+                               number of items it goes on to yield
+   * "count() agrees":
+       C09_iter_count_from     count() from any cursor (lo,hi) returns hi - lo and
+                               leaves the exhausted cursor (hi,hi)
+       C09_iter_count_after    after j steps: count() = len - min j len, the
+                               iterator is consumed (cursor_len = 0) and a further
+                               next() returns None
+       C09_iter_session_obs    interpreter, kinds iter/keys/values: the count of
+                               the clone is nn (len - min steps len)
+   * the six kinds:
+       C09_r_item_kinds        kind 0 iter, 1 iter_mut -> the pair; 2 keys -> fst;
+                               3 values, 4 values_mut -> snd; kinds 1 and 4 are
+                               the mutable ones
+       C09_iter_steps_obs      the item rendered at a step is r_item kind of the
+                               pair stored in the yielded slot; kinds 0,2,3 leave
+                               the WHOLE world unchanged; kinds 1,4 write wd+j
+                               through the reference yielded at step j: the slot
+                               yielded keeps its key and value object and gets
+                               that payload, every slot outside the yielded range
+                               is untouched
+       C09_steps_obs_step / C09_steps_obs_end   one step read off
+       C09_set_iter_steps_obs  Set::iter: the item is the key of the pair (k, ())
+                               in the yielded slot; world unchanged
+       C09_iter_mut_session_writes  the same on the content (Spec.elems)
+   * "writes made through iter_mut or values_mut are exactly what later lookups
+     return":
+       C09_write_val_exact     one write: content = upd content i (k, f v)
+       C09_iter_mut_write_then_get   Lawful E, Uniq keys: take S i items from the
+                               iterator, write through the LAST reference yielded,
+                               then get(q) with q equal to that entry's key:
+                               returns slot i, which holds (k, f v); all other
+                               entries unchanged; every class is found at the
+                               slot where it was found before
+   * "a cloned iterator continues identically to its original":
+       C09_iter_clone_continues  after j steps clone the iterator; running the
+                               clone n steps yields the next slots in order
+                               (what the original would yield), the original's
+                               len() is still len - min j len, the original then
+                               yields the same slots from ITS position, and equal
+                               numbers of steps give equal results
+       C09_rest_slots_exact / C09_rest_slots_s_exact / C09_rest_slots_is_clone_run
+                               the interpreter's clone consumption yields exactly
+                               what iter_run on the cloned cursor yields
+   HYPOTHESES: WF (self w) = container invariant; hi <= len = the cursor is an
+   iterator over this container; Lawful E ck cq, Uniq ck (elems) only in
+   C09_iter_mut_write_then_get (lookups need a lawful ==; keys are pairwise
+   different in every reachable state, C14).  No panic, no UB in any of them.
+   ======================================================================== *)
+Require Import Proofs.MoreIter Proofs.Lawful Proofs.FmtSerde.
+
+Theorem C09_iter_len_after :
+  forall (K V T : Type) (j : nat) (w : world K V T),
+    WF (self w) ->
+    wp (c <- iter ;; r <- iter_run j c ;; n <- iter_len (snd r) ;; h <- iter_size_hint (snd r) ;; ret (n, h))
+       (fun (x : nat * (nat * option nat)) (w' : world K V T) =>
+          w' = w /\
+          fst x = len (self w) - Nat.min j (len (self w)) /\
+          snd x = (len (self w) - Nat.min j (len (self w)),
+                   Some (len (self w) - Nat.min j (len (self w)))))
+       (fun _ : world K V T => False) w.
+Proof. exact (@iter_len_after). Qed.
+Print Assumptions C09_iter_len_after.
+
+Theorem C09_iter_count_from :
+  forall (K V T : Type) (lo hi : nat) (w : world K V T),
+    WF (self w) -> lo <= hi -> hi <= len (self w) ->
+    wp (iter_count (lo, hi))
+       (fun (x : nat * cursor) (w' : world K V T) => w' = w /\ fst x = hi - lo /\ snd x = (hi, hi))
+       (fun _ : world K V T => False) w.
+Proof. exact (@iter_count_from). Qed.
+Print Assumptions C09_iter_count_from.
+
+Theorem C09_iter_count_after :
+  forall (K V T : Type) (j : nat) (w : world K V T),
+    WF (self w) ->
+    wp (c <- iter ;; r <- iter_run j c ;; x <- iter_count (snd r) ;; y <- iter_next (snd x) ;; ret (x, fst y))
+       (fun (z : nat * cursor * option nat) (w' : world K V T) =>
+          w' = w /\
+          fst (fst z) = len (self w) - Nat.min j (len (self w)) /\
+          snd (fst z) = (len (self w), len (self w)) /\
+          cursor_len (snd (fst z)) = 0 /\ snd z = None)
+       (fun _ : world K V T => False) w.
+Proof. exact (@iter_count_after). Qed.
+Print Assumptions C09_iter_count_after.
+
+Theorem C09_iter_clone_continues :
+  forall (K V T : Type) (j n m : nat) (w : world K V T),
+    WF (self w) ->
+    wp (c0 <- iter ;; r <- iter_run j c0 ;;
+        c' <- iter_clone (snd r) ;;
+        rc <- iter_run n c' ;;
+        l <- iter_len (snd r) ;;
+        ro <- iter_run m (snd r) ;;
+        ret (rc, l, ro))
+       (fun (x : list nat * cursor * nat * (list nat * cursor)) (w' : world K V T) =>
+          let pos := Nat.min j (len (self w)) in
+          let rest := len (self w) - pos in
+          w' = w /\
+          fst (fst (fst x)) = seq pos (Nat.min n rest) /\
+          snd (fst (fst x)) = (pos + Nat.min n rest, len (self w)) /\
+          snd (fst x) = rest /\
+          fst (snd x) = seq pos (Nat.min m rest) /\
+          snd (snd x) = (pos + Nat.min m rest, len (self w)) /\
+          (n = m -> fst (fst x) = snd x))
+       (fun _ : world K V T => False) w.
+Proof. exact (@iter_clone_continues). Qed.
+Print Assumptions C09_iter_clone_continues.
+
+Theorem C09_write_val_exact :
+  forall (K V T : Type) (i : nat) (f : V -> V) (k : K) (v : V) (w : world K V T),
+    WF (self w) ->
+    nth_error (Spec.elems (self w)) i = Some (k, v) ->
+    wp (write_val i f)
+       (fun (_ : unit) (w' : world K V T) =>
+          w' = with_self w (set_slot_m (self w) i (Some (k, f v))) /\
+          WF (self w') /\ cap (self w') = cap (self w) /\ len (self w') = len (self w) /\
+          Spec.elems (self w') = upd (Spec.elems (self w)) i (k, f v))
+       (fun _ : world K V T => False) w.
+Proof. exact (@write_val_exact). Qed.
+Print Assumptions C09_write_val_exact.
+
+Theorem C09_iter_mut_write_then_get :
+  forall (K V Q T : Type) (E : env K V Q T) (ck : K -> N) (cq : Q -> N),
+    Lawful E ck cq ->
+    forall (i : nat) (f : V -> V) (q : Q) (k : K) (v : V) (w : world K V T),
+    WF (self w) ->
+    Uniq ck (Spec.elems (self w)) ->
+    nth_error (Spec.elems (self w)) i = Some (k, v) ->
+    cq q = ck k ->
+    wp (c <- iter ;; r <- iter_run (S i) c ;;
+        write_val (last (fst r) 0) f ;;
+        o <- get E q ;;
+        match o with
+        | Some x => p <- p_ref x ;; ret (Some (x, p))
+        | None => ret None
+        end)
+       (fun (res : option (nat * (K * V))) (w' : world K V T) =>
+          res = Some (i, (k, f v)) /\
+          WF (self w') /\ cap (self w') = cap (self w) /\ log w' = log w /\
+          Spec.elems (self w') = upd (Spec.elems (self w)) i (k, f v) /\
+          (forall j : nat, j <> i ->
+             nth_error (Spec.elems (self w')) j = nth_error (Spec.elems (self w)) j) /\
+          (forall c : N, find_idx ck c (Spec.elems (self w')) = find_idx ck c (Spec.elems (self w))))
+       (fun _ : world K V T => False) w.
+Proof. exact (@iter_mut_write_then_get). Qed.
+Print Assumptions C09_iter_mut_write_then_get.
+
+(* ---- the interpreter's sessions (Model/Exec.v) ---- *)
+
+Theorem C09_set_dat_is_write_val :
+  forall (i : nat) (d : N),
+    set_dat i d = write_val (T := cstate) i (fun v : vobj => {| vid := vid v; vdat := d |}).
+Proof. exact set_dat_is_write_val. Qed.
+Print Assumptions C09_set_dat_is_write_val.
+
+Theorem C09_r_item_kinds :
+  forall p : key * vobj,
+    r_item 0 p = r_pair p /\ r_item 1 p = r_pair p /\ r_item 2 p = r_key (fst p) /\
+    r_item 3 p = r_val (snd p) /\ r_item 4 p = r_val (snd p) /\
+    is_mut_kind 0 = false /\ is_mut_kind 1 = true /\ is_mut_kind 2 = false /\
+    is_mut_kind 3 = false /\ is_mut_kind 4 = true.
+Proof. exact r_item_kinds. Qed.
+Print Assumptions C09_r_item_kinds.
+
+(* steps_obs item sl n lo hi (Proofs/MoreIter.v): the observation list of n
+   steps from cursor (lo,hi) over the slots sl: per step  l l l 1 slot item(p)
+   with l = nn (hi - lo) and p the pair in slot lo, or  l l l 0  when lo >= hi.
+   dat_set d p = (fst p, {| vid := vid (snd p); vdat := d |}). *)
+Theorem C09_iter_steps_obs :
+  forall (kind wd : N) (n j lo hi : nat) (acc : list N) (w : world key vobj cstate),
+    WF (self w) -> hi <= len (self w) ->
+    wp (iter_steps kind wd n j (lo, hi) acc)
+       (fun (r : list N * cursor) (w' : world key vobj cstate) =>
+          let m := Nat.min n (hi - lo) in
+          fst r = acc ++ steps_obs (r_item kind) (slots (self w)) n lo hi /\
+          snd r = (lo + m, hi) /\
+          cb w' = cb w /\ log w' = log w /\ WF (self w') /\
+          len (self w') = len (self w) /\ cap (self w') = cap (self w) /\
+          (is_mut_kind kind = false -> w' = w) /\
+          (forall i : nat, i < lo \/ lo + m <= i ->
+             nth_error (slots (self w')) i = nth_error (slots (self w)) i) /\
+          (forall (i : nat) (p : key * vobj), lo <= i < lo + m ->
+             nth_error (slots (self w)) i = Some (Some p) ->
+             nth_error (slots (self w')) i =
+               Some (Some (if is_mut_kind kind then dat_set (wd + nn (j + (i - lo))) p else p))))
+       (fun _ : world key vobj cstate => False) w.
+Proof. exact iter_steps_obs. Qed.
+Print Assumptions C09_iter_steps_obs.
+
+Theorem C09_steps_obs_step :
+  forall (V : Type) (item : key * V -> list N) (sl : list (option (key * V))) (lo hi : nat) (p : key * V),
+    lo < hi -> nth_error sl lo = Some (Some p) ->
+    steps_obs item sl 1 lo hi = [nn (hi - lo); nn (hi - lo); nn (hi - lo); 1%N; nn lo] ++ item p.
+Proof. exact (@steps_obs_step). Qed.
+Print Assumptions C09_steps_obs_step.
+
+Theorem C09_steps_obs_end :
+  forall (V : Type) (item : key * V -> list N) (sl : list (option (key * V))) (lo hi : nat),
+    hi <= lo -> steps_obs item sl 1 lo hi = [0%N; 0%N; 0%N; 0%N].
+Proof. exact (@steps_obs_end). Qed.
+Print Assumptions C09_steps_obs_end.
+
+Theorem C09_set_iter_steps_obs :
+  forall (n lo hi : nat) (acc : list N) (w : world key unit cstate),
+    WF (self w) -> hi <= len (self w) ->
+    wp (set_iter_steps n (lo, hi) acc)
+       (fun (r : list N * cursor) (w' : world key unit cstate) =>
+          w' = w /\
+          fst r = acc ++ steps_obs (fun p : key * unit => r_key (fst p)) (slots (self w)) n lo hi /\
+          snd r = (lo + Nat.min n (hi - lo), hi))
+       (fun _ : world key unit cstate => False) w.
+Proof. exact set_iter_steps_obs. Qed.
+Print Assumptions C09_set_iter_steps_obs.
+
+Theorem C09_iter_mut_session_writes :
+  forall (kind wd : N) (n : nat) (w : world key vobj cstate),
+    WF (self w) -> is_mut_kind kind = true ->
+    wp (c <- iter ;; iter_steps kind wd n 0 c [])
+       (fun (r : list N * cursor) (w' : world key vobj cstate) =>
+          fst r = steps_obs (r_item kind) (slots (self w)) n 0 (len (self w)) /\
+          snd r = (Nat.min n (len (self w)), len (self w)) /\
+          WF (self w') /\ len (self w') = len (self w) /\ cap (self w') = cap (self w) /\
+          log w' = log w /\
+          forall (i : nat) (k : key) (v : vobj),
+            nth_error (Spec.elems (self w)) i = Some (k, v) ->
+            nth_error (Spec.elems (self w')) i =
+              Some (k, if i <? n then {| vid := vid v; vdat := wd + nn i |} else v))
+       (fun _ : world key vobj cstate => False) w.
+Proof. exact iter_mut_session_writes. Qed.
+Print Assumptions C09_iter_mut_session_writes.
+
+Theorem C09_rest_slots_exact :
+  forall (n lo : nat) (w : world key vobj cstate),
+    WF (self w) -> lo + n <= len (self w) ->
+    wp (rest_slots n lo)
+       (fun (r : list N) (w' : world key vobj cstate) => w' = w /\ r = List.map nn (seq lo n))
+       (fun _ : world key vobj cstate => False) w.
+Proof. exact rest_slots_exact. Qed.
+Print Assumptions C09_rest_slots_exact.
+
+Theorem C09_rest_slots_s_exact :
+  forall (n lo : nat) (w : world key unit cstate),
+    WF (self w) -> lo + n <= len (self w) ->
+    wp (rest_slots_s n lo)
+       (fun (r : list N) (w' : world key unit cstate) => w' = w /\ r = List.map nn (seq lo n))
+       (fun _ : world key unit cstate => False) w.
+Proof. exact rest_slots_s_exact. Qed.
+Print Assumptions C09_rest_slots_s_exact.
+
+Theorem C09_rest_slots_is_clone_run :
+  forall (lo hi : nat) (w : world key vobj cstate),
+    WF (self w) -> lo <= hi -> hi <= len (self w) ->
+    wp (c' <- iter_clone (lo, hi) ;; r <- iter_run (cursor_len c') c' ;;
+        rest <- rest_slots (cursor_len (lo, hi)) (fst (lo, hi)) ;; ret (r, rest))
+       (fun (x : list nat * cursor * list N) (w' : world key vobj cstate) =>
+          w' = w /\ snd x = List.map nn (fst (fst x)) /\
+          fst (fst x) = seq lo (hi - lo) /\ length (snd x) = cursor_len (lo, hi))
+       (fun _ : world key vobj cstate => False) w.
+Proof. exact rest_slots_is_clone_run. Qed.
+Print Assumptions C09_rest_slots_is_clone_run.
+
+(* d0, d1 are the two Debug renderings of the iterator (C19) *)
+Theorem C09_iter_session_obs :
+  forall (kind : N) (steps : nat) (wd : N) (w : world key vobj cstate),
+    WF (self w) -> is_mut_kind kind = false ->
+    wp (iter_session kind steps wd)
+       (fun (r : list N) (w' : world key vobj cstate) =>
+          let pos := Nat.min steps (len (self w)) in
+          let rest := len (self w) - pos in
+          w' = w /\
+          exists d0 d1 : list N,
+            r = steps_obs (r_item kind) (slots (self w)) steps 0 (len (self w)) ++ d0 ++ d1 ++
+                [nn rest] ++ List.map nn (seq pos rest) ++ [nn rest])
+       (fun _ : world key vobj cstate => False) w.
+Proof. exact iter_session_obs. Qed.
+Print Assumptions C09_iter_session_obs.
+
+(* ---------------------------------------------------------------------- *)
+(* non-vacuity                                                              *)
+(* ---------------------------------------------------------------------- *)
+Definition C09_sc0 : script := {| sc_adv := false; sc_seed := 0; sc_fk := 0; sc_fa := 0 |}.
+
+(* the hypotheses of C09_iter_mut_write_then_get are satisfiable: the honest
+   scripted environment is lawful, m3 has pairwise different keys, entry 1 is
+   (k_ 3 6, v_ 4 8) and the query QCls 6 equals its key *)
+Example C09_example_lawful : Lawful (env_map C09_sc0) kcls qcls.
+Proof. exact (env_map_lawful C09_sc0 (conj eq_refl eq_refl)). Qed.
+
+Example C09_example_uniq :
+  Uniq kcls (Spec.elems m3) /\ nth_error (Spec.elems m3) 1 = Some (k_ 3 6, v_ 4 8) /\
+  qcls (QCls 6) = kcls (k_ 3 6).
+Proof.
+  split; [|split; reflexivity]. unfold Uniq. vm_compute.
+  repeat constructor; cbn [In]; intros H;
+    repeat (destruct H as [H | H]; try discriminate H); exact H.
+Qed.
+
+(* ... and the conclusion on that instance: two items from iter_mut(), write
+   payload 80 through the second reference, get(class 6) returns slot 1 holding
+   the written value; entries 0 and 2 unchanged *)
+Example C09_example_write_then_get :
+  match (c <- iter ;; r <- iter_run 2 c ;;
+         write_val (last (fst r) 0) (fun v : vobj => {| vid := vid v; vdat := 80 |}) ;;
+         o <- get (env_map C09_sc0) (QCls 6) ;;
+         match o with Some x => p <- p_ref x ;; ret (Some (x, p)) | None => ret None end)
+          (w_of m3) with
+  | Ok res w' => res = Some (1, (k_ 3 6, v_ 4 80)) /\
+                 Spec.elems (self w') = [(k_ 1 5, v_ 2 7); (k_ 3 6, v_ 4 80); (k_ 5 7, v_ 6 9)]
+  | _ => False
+  end.
+Proof. vm_compute. split; reflexivity. Qed.
+
+(* len / size_hint / count after one step of a session over m3: 2, (2, Some 2),
+   count() = 2 leaving (3,3), then None *)
+Example C09_example_len_count :
+  (c <- iter ;; r <- iter_run 1 c ;; n <- iter_len (snd r) ;; h <- iter_size_hint (snd r) ;; ret (n, h))
+    (w_of m3) = Ok (2, (2, Some 2)) (w_of m3) /\
+  (c <- iter ;; r <- iter_run 1 c ;; x <- iter_count (snd r) ;; y <- iter_next (snd x) ;; ret (x, fst y))
+    (w_of m3) = Ok ((2, (3, 3)), None) (w_of m3).
+Proof. vm_compute. split; reflexivity. Qed.
+
+(* clone after one step; the clone runs 5 steps (yields 1,2), the original's
+   len() is still 2 and it then yields 1 from its own position *)
+Example C09_example_clone_continues :
+  (c0 <- iter ;; r <- iter_run 1 c0 ;; c' <- iter_clone (snd r) ;; rc <- iter_run 5 c' ;;
+   l <- iter_len (snd r) ;; ro <- iter_run 1 (snd r) ;; ret (rc, l, ro)) (w_of m3)
+  = Ok (([1; 2], (3, 3)), 2, ([1], (2, 3))) (w_of m3).
+Proof. vm_compute. reflexivity. Qed.
+
+(* the interpreter: 2 steps of keys() (kind 2) and of values_mut() (kind 4, wd 50)
+   over m3: hints 3,3,3 then 2,2,2; items are the key / the value of slots 0, 1;
+   values_mut writes payloads 50, 51 into entries 0, 1 and nothing else *)
+Example C09_example_kinds :
+  match (c <- iter ;; iter_steps 2 0 2 0 c []) (w_of m3) with
+  | Ok r w' => fst r = [3; 3; 3; 1; 0; 1; 5;  2; 2; 2; 1; 1; 3; 6]%N /\ snd r = (2, 3) /\ w' = w_of m3
+  | _ => False
+  end /\
+  match (c <- iter ;; iter_steps 4 50 2 0 c []) (w_of m3) with
+  | Ok r w' => fst r = [3; 3; 3; 1; 0; 2; 7;  2; 2; 2; 1; 1; 4; 8]%N /\ snd r = (2, 3) /\
+               Spec.elems (self w') = [(k_ 1 5, v_ 2 50); (k_ 3 6, v_ 4 51); (k_ 5 7, v_ 6 9)]
+  | _ => False
+  end /\
+  steps_obs (r_item 2) (slots m3) 2 0 3 = [3; 3; 3; 1; 0; 1; 5;  2; 2; 2; 1; 1; 3; 6]%N.
+Proof. vm_compute. repeat split; reflexivity. Qed.
